@@ -6,8 +6,60 @@
 package packets
 
 import (
+	"net/netip"
+
 	"github.com/google/gopacket/layers"
 )
+
+// ---- byte-level reading of a quoted IPv4 / IPv6 packet, independent of gopacket ----
+// These are the oracles the attribution properties are stated against: they say where, in the bytes an
+// ICMP error carries after its 8-byte header, the quoted addresses, IP-ID and transport bytes are.
+
+// SpecQ4ok: q starts with a complete IPv4 header.
+func SpecQ4ok(q []byte) bool {
+	return len(q) >= 20 && int(q[0]&0x0f) >= 5 && len(q) >= int(q[0]&0x0f)*4
+}
+
+// SpecQ4IHL is the quoted header length in bytes.
+func SpecQ4IHL(q []byte) int        { return int(q[0]&0x0f) * 4 }
+func SpecQ4Src(q []byte) netip.Addr { a, _ := netip.AddrFromSlice(q[12:16]); return a.Unmap() }
+func SpecQ4Dst(q []byte) netip.Addr { a, _ := netip.AddrFromSlice(q[16:20]); return a.Unmap() }
+func SpecQ4ID(q []byte) uint16      { return uint16(q[4])<<8 + uint16(q[5]) }
+
+// SpecQ4L4 is everything after the quoted IPv4 header.
+func SpecQ4L4(q []byte) []byte { return q[SpecQ4IHL(q):] }
+
+// SpecQ4Plain: a quote as routers produce it for our probes: no IP options, and a total-length field that
+// is zero (offload) or covers at least the header. (Packets come out of a 1024-byte read buffer; the bound
+// on len(q) only excludes the 16-bit wrap of the decoder's len() fallback.)
+func SpecQ4Plain(q []byte) bool {
+	return len(q) >= 20 && len(q) <= 65535 && q[0]&0x0f == 5 && (SpecQ4Len(q) == 0 || SpecQ4Len(q) >= 20)
+}
+func SpecQ4Len(q []byte) int { return int(q[2])<<8 + int(q[3]) }
+
+// SpecQ4PayLen is how many transport bytes of a plain quote the decoder exposes.
+func SpecQ4PayLen(q []byte) int {
+	n := len(q)
+	if l := SpecQ4Len(q); l != 0 && l < n {
+		n = l
+	}
+	return n - 20
+}
+
+// SpecQ6ok: q (the ICMPv6 body) holds the 4 unused bytes followed by a complete IPv6 fixed header.
+func SpecQ6ok(q []byte) bool        { return len(q) >= 44 && q[4]>>4 == 6 }
+func SpecQ6Src(q []byte) netip.Addr { a, _ := netip.AddrFromSlice(q[12:28]); return a }
+func SpecQ6Dst(q []byte) netip.Addr { a, _ := netip.AddrFromSlice(q[28:44]); return a }
+func SpecQ6L4(q []byte) []byte      { return q[44:] }
+func SpecQ6Len(q []byte) int        { return int(q[8])<<8 + int(q[9]) }
+func SpecQ6Next(q []byte) int       { return int(q[10]) }
+
+// SpecParsed is the exported form of specParsed for contracts of other packages.
+func SpecParsed(p *FrameParser) bool { return specParsed(p) }
+
+// SpecOuterSrc / SpecOuterDst: the addresses of the IP layer of a parsed packet.
+func SpecOuterSrc(p *FrameParser) netip.Addr { pair, _ := p.GetIPPair(); return pair.SrcAddr }
+func SpecOuterDst(p *FrameParser) netip.Addr { pair, _ := p.GetIPPair(); return pair.DstAddr }
 
 // specParsed is the representation invariant a successfully parsed FrameParser satisfies:
 // at least two decoded layers, an IP layer followed by a transport layer traceroute knows.
@@ -68,6 +120,7 @@ func specParsed(p *FrameParser) bool {
 //@ modifies nothing
 
 //@ func extractEmbeddedIPv6
+//@ inline
 //@ safety C09
 //@ ensures[C09.emb6.err]   (ret1 == nil) == (len(payload) >= 5 && payload[4]/16 == 6)
 //@ ensures[C01.emb6.val]   ret1 == nil ==> len(ret0) == len(payload)-4 && forall(i, 0, len(ret0), ret0[i] == payload[i+4])
@@ -96,12 +149,19 @@ func specParsed(p *FrameParser) bool {
 //@ modifies nothing
 
 //@ func (*FrameParser).GetICMPInfo
-//@ inline
 //@ safety C09
 //@ requires[pre.nonnil]    p != nil
 //@ requires[pre.parsed]    specParsed(p)
 //@ ensures[C09.icmpinfo.kind] ret1 == nil ==> p.Layers[1] == layers.LayerTypeICMPv4 || p.Layers[1] == layers.LayerTypeICMPv6
-//@ ensures[C01.icmpinfo.id4]  ret1 == nil && p.Layers[1] == layers.LayerTypeICMPv4 ==> len(p.ICMP4.Payload) >= 20 && int(ret0.WrappedPacketID) == int(be16(p.ICMP4.Payload, 4))
+//@ ensures[C09.icmpinfo.class] ret1 != nil ==> !chain(ret1, *common.ReceiveProbeNoPktError) && !chain(ret1, *common.BadPacketError)
+//@ ensures[C01.icmpinfo.outer] ret1 == nil ==> ret0.IPPair.SrcAddr == SpecOuterSrc(p) && ret0.IPPair.DstAddr == SpecOuterDst(p)
+//@ ensures[C01.icmpinfo.q4]   ret1 == nil && p.Layers[1] == layers.LayerTypeICMPv4 ==> SpecQ4ok(p.ICMP4.Payload) && ret0.ICMPPair.SrcAddr == SpecQ4Src(p.ICMP4.Payload) && ret0.ICMPPair.DstAddr == SpecQ4Dst(p.ICMP4.Payload) && ret0.WrappedPacketID == SpecQ4ID(p.ICMP4.Payload)
+//@ ensures[C01.icmpinfo.pay4] ret1 == nil && p.Layers[1] == layers.LayerTypeICMPv4 ==> fresh(ret0.Payload) && len(ret0.Payload) <= len(p.ICMP4.Payload) - SpecQ4IHL(p.ICMP4.Payload) && forall(i, 0, len(ret0.Payload), ret0.Payload[i] == p.ICMP4.Payload[SpecQ4IHL(p.ICMP4.Payload)+i])
+//@ ensures[C02.icmpinfo.plain4] p.Layers[1] == layers.LayerTypeICMPv4 && SpecQ4Plain(p.ICMP4.Payload) ==> ret1 == nil && len(ret0.Payload) == SpecQ4PayLen(p.ICMP4.Payload)
+//@ ensures[C01.icmpinfo.q6]   ret1 == nil && p.Layers[1] == layers.LayerTypeICMPv6 ==> SpecQ6ok(p.ICMP6.Payload) && ret0.ICMPPair.SrcAddr == SpecQ6Src(p.ICMP6.Payload) && ret0.ICMPPair.DstAddr == SpecQ6Dst(p.ICMP6.Payload)
+//@ ensures[C01.icmpinfo.id6]  ret1 == nil && p.Layers[1] == layers.LayerTypeICMPv6 ==> int(ret0.WrappedPacketID) == ite(SpecQ6Next(p.ICMP6.Payload) == 17, SpecQ6Len(p.ICMP6.Payload), 0)
+//@ ensures[C01.icmpinfo.pay6] ret1 == nil && p.Layers[1] == layers.LayerTypeICMPv6 && SpecQ6Next(p.ICMP6.Payload) != 0 ==> fresh(ret0.Payload) && len(ret0.Payload) <= len(p.ICMP6.Payload) - 44 && forall(i, 0, len(ret0.Payload), ret0.Payload[i] == p.ICMP6.Payload[44+i])
+//@ ensures[C02.icmpinfo.plain6] p.Layers[1] == layers.LayerTypeICMPv6 && SpecQ6ok(p.ICMP6.Payload) && SpecQ6Next(p.ICMP6.Payload) != 0 && SpecQ6Len(p.ICMP6.Payload) != 0 ==> ret1 == nil && len(ret0.Payload) == ite(SpecQ6Len(p.ICMP6.Payload) < len(p.ICMP6.Payload)-44, SpecQ6Len(p.ICMP6.Payload), len(p.ICMP6.Payload)-44)
 //@ modifies nothing
 
 //@ func ReadAndParse
